@@ -577,7 +577,37 @@ def r15(ctx):
         raise AnalysisBroken('C04.R15: the handling of a received SYN was not found in handleReceive')
 
 
+def r16(ctx):
+    ctx.rule('C04.R16', 'draining a queue ends: a loop of the protocol handler that takes requests out of a queue until it is empty '
+             '(while ((r = Q.pop()) != nullptr)) puts nothing back into that same queue - the drain of m_nextRequests on signal '
+             'loss hands every request to its waiter through m_finishedRequests; pushed back into m_nextRequests, a waited '
+             'request is popped again at once and the bus thread never leaves the loop', minimum=1)
+    fb = ctx.fb
+    n = 0
+    seen = set()
+    for fn in fb.functions:
+        if not fn.relfile.startswith('src/lib/ebus/protocol') or not fn.nodes or (fn.name, fn.sig) in seen:
+            continue
+        seen.add((fn.name, fn.sig))
+        for l in fn.all('WhileStmt', 'ForStmt', 'DoStmt'):
+            cond = fn.nodes[l].get('cond')
+            if cond is None:
+                continue
+            pops = [c for c in fn.calls('pop') if c in set(fn.walk(cond)) and 'obj' in fn.nodes[c]]
+            for pc in pops:
+                q = fn.key(fn.nodes[pc]['obj'])
+                n += 1
+                ctx.touch(fn)
+                inside = set(fn.walk(fn.nodes[l].get('body', l)))
+                back = [c for c in fn.calls('push', 'push_back', 'emplace') if c in inside and 'obj' in fn.nodes[c] and fn.key(fn.nodes[c]['obj']) == q]
+                ctx.ob('C04.R16', fn, l, not back, 'loop that drains %s in %s' % (q.split('.')[-1], fn.name.split('::', 1)[-1]),
+                       'nothing is pushed back into the drained queue: %s' % (not back))
+    if n < 1:
+        raise AnalysisBroken('C04.R16: no draining loop found in the protocol handler')
+
+
 def run(ctx):
+    r16(ctx)
     r15(ctx)
     import rules.common as _cmn
     ctx.rule('C04.R14', 'an argument is still the argument where it is read: a for loop that takes a by-value parameter over as its counter destroys the argument, so no read of that parameter is reachable behind such a loop - BusHandler::prepareScan decides who frees a scan request (deleteOnFinish) by slave == SYN; behind for (slave = 1; slave != 0; slave++) that test is always false and every asynchronous scan request stays in the finished queue for ever (checked against a positive example on every run)', minimum=3)
